@@ -2141,7 +2141,17 @@ class RepeatingEngine(Engine):
                 self.emit_now()
 
         # VV: @tag:RestartEngines
-        if reason == experiment.model.codes.exitReasons["ResourceExhausted"] and self.restarts == 0:
+        # VV: Like Engine.restart(), honour the restart policy of the component: the exit-reason must be listed in
+        # restartHookOn and maxRestarts=0 means "cannot restart at all"
+        restart_on = self.job.workflowAttributes.get('restartHookOn', [])
+        max_restarts = self.job.workflowAttributes.get('maxRestarts', None)
+
+        if reason == experiment.model.codes.exitReasons["ResourceExhausted"] and self.restarts == 0 \
+                and reason in restart_on and max_restarts == 0:
+            self.log.info("Repeating engine may not restart (maxRestarts is 0)")
+            retval = experiment.model.codes.restartCodes['RestartMaxAttemptsExceeded']
+        elif reason == experiment.model.codes.exitReasons["ResourceExhausted"] and self.restarts == 0 \
+                and reason in restart_on:
             # VV: A RepeatingEngine will only restart once and only if its last exit-reason was ResourceExhausted
             self.log.info("Attempting restart of interrupted last task execution")
 
